@@ -68,8 +68,8 @@ def closedness_problems(routine_ops, routine_infos, named_coroutines):
                     probs.append(f"{name}@{op.offset}: last parameter {t!r} is not an offset")
                 elif t not in seen:
                     probs.append(f"{name}@{op.offset}: target {t} is not the offset of an op of the result")
-                elif len(op.params) - 1 != JUMP_IDX[name]:
-                    probs.append(f"{name}@{op.offset}: {len(op.params)} parameters, target is not at the canonical index")
+                # (how many parameters precede the target is not C03's business: `if (BranchSum($V, 1))` written with too few
+                # arguments gives an op with fewer parameters, the target is still the last one)
     return probs
 
 
